@@ -540,7 +540,7 @@ def regressRows (m : FitMethod) (V : Option (List (List α))) (ridge : α)
     C08's model (`Rsa.Fit.nnls`: only coefficients fixed at zero may enter, threshold
     `eps · max|b|`, at most `3k` outer passes) on the same normal equations.  The Boolean says
     whether the loop ended through its own test. -/
-def regressRowsNN (eps : α) (m : FitMethod) (V : Option (List (List α))) (ridge : α)
+def regressRowsNN [Neg α] [LE α] [DecidableLE α] [Max α] [Min α] (eps : α) (m : FitMethod) (V : Option (List (List α))) (ridge : α)
     (A : List (List α)) (y : List α) : List α × Bool :=
   let r := Rsa.Fit.nnls eps (normalEq m V ridge A y).1 (normalEq m V ridge A y).2
   (r.1, r.2.2)
@@ -568,7 +568,7 @@ variable {α : Type} [Add α] [Sub α] [Mul α] [Div α] [Zero α] [One α] [Nat
 
 /-- `fit_regress_nn` after pooling: the same parser and `V` reduction as `fit_regress`, then
     the non-negative least-squares loop -/
-def fitRegressNN (eps : α) (m : FitMethod) (V : List (List α)) (ridge : α) (normalize : Bool)
+def fitRegressNN [Neg α] [LE α] [DecidableLE α] [Max α] [Min α] (eps : α) (m : FitMethod) (V : List (List α)) (ridge : α) (normalize : Bool)
     (A : List (List (Option α))) (y : List (Option α)) : Except ParseErr (List α × Bool) :=
   match parseOf .utils A [y] with
   | .ok (a, b, mask) =>
